@@ -265,12 +265,126 @@ def run_constructors():
     return n, failures, counters
 
 
+# ---------------------------------------------------------------------------------------------------------
+# Parameterised families with arbitrary (also invalid) parameters: scalar constructor arguments and per-symbol
+# parameter arrays. C19: any exception is a clean failure; a model / parameter set that is ACCEPTED must behave
+# like a valid model: symbols of the support round-trip, arbitrary words decode into the support. A case that
+# hangs is found by the caller through the progress markers written to stderr.
+FAM_PARAMS = [0.0, -0.0, 1e-300, 1e-9, 0.3, 0.5, 1.0, 1.5, 3.0, 1e300, -0.25, -1.0, float("nan"), float("inf"), float("-inf")]
+FAM_LOCS = [0.0, 0.7, -1e300, float("nan"), float("inf")]
+
+
+def family_cases():
+    cases = []
+    for fam in ("gaussian", "laplace", "cauchy"):
+        for loc in FAM_LOCS:
+            for sc in FAM_PARAMS:
+                for mode in ("scalar", "array", "array_scale_only"):
+                    cases.append((fam, loc, sc, mode))
+    for n_ in (0, 1, 10, -3):
+        for p_ in FAM_PARAMS:
+            for mode in ("scalar", "array"):
+                cases.append(("binomial", n_, p_, mode))
+    for p_ in FAM_PARAMS:
+        for mode in ("scalar", "array"):
+            cases.append(("bernoulli", 0, p_, mode))
+    for size in (-1, 0, 1, 2, 3, 2**24 - 1, 2**24, 2**24 + 1, 2**31 - 1):
+        cases.append(("uniform", 0, size, "scalar"))
+        cases.append(("uniform", 0, size, "array"))
+    return cases
+
+
+def family_case(fam, a, b, mode):
+    """returns None (fine) or a description of what is wrong"""
+    lo, hi = -5, 5
+    ans = constriction.stream.stack.AnsCoder
+    if fam in ("gaussian", "laplace", "cauchy"):
+        cls = {"gaussian": M.QuantizedGaussian, "laplace": M.QuantizedLaplace, "cauchy": M.QuantizedCauchy}[fam]
+        support = (lo, hi)
+        if mode == "scalar":
+            model, params = cls(lo, hi, a, b), ()
+        elif mode == "array":
+            model, params = cls(lo, hi), (np.array([0.5, a], dtype=np.float64), np.array([1.0, b], dtype=np.float64))
+        else:
+            model, params = cls(lo, hi, a), (np.array([1.0, b], dtype=np.float64),)
+        syms = np.array([lo, 2], dtype=np.int32)
+    elif fam == "binomial":
+        support = (0, max(a, 0))
+        if mode == "scalar":
+            model, params = M.Binomial(a, b), ()
+        else:
+            model, params = M.Binomial(a), (np.array([0.5, b], dtype=np.float64),)
+        syms = np.array([0, max(a, 0)], dtype=np.int32)
+    elif fam == "bernoulli":
+        support = (0, 1)
+        if mode == "scalar":
+            model, params = M.Bernoulli(b, perfect=False), ()
+        else:
+            model, params = M.Bernoulli(perfect=False), (np.array([0.5, b], dtype=np.float64),)
+        syms = np.array([0, 1], dtype=np.int32)
+    else:
+        support = (0, b - 1)
+        if mode == "scalar":
+            model, params = M.Uniform(b), ()
+        else:
+            model, params = M.Uniform(), (np.array([3, b], dtype=np.int32),)
+            support = [(0, 2), (0, b - 1)]  # per-symbol supports
+        syms = np.array([0, min(max(b - 1, 0), 2)], dtype=np.int32)
+    enc = ans()
+    enc.encode_reverse(syms, model, *params)
+    words = enc.get_compressed()
+    back = ans(words).decode(model, *params) if params else ans(words).decode(model, len(syms))
+    if not np.array_equal(back, syms):
+        return f"accepted, but symbols {list(syms)} decode as {list(back)}"
+    for w in ([0x12345678, 0x9abcdef0, 0x0fedcba9, 0x13579bdf], [0, 0, 0, 1], [0xffffffff] * 4):
+        d = ans(np.array(w, dtype=np.uint32))
+        out = d.decode(model, *params) if params else d.decode(model, 2)
+        sup = support if isinstance(support, list) else [support] * len(out)
+        if any(int(o) < lo_ or int(o) > hi_ for o, (lo_, hi_) in zip(out, sup)):
+            return f"accepted, but arbitrary words decode to {list(out)} outside the support {support}"
+        # what was decoded must re-encode to the same words (a valid model is exactly invertible)
+        e2 = ans(d.get_compressed()) if len(d.get_compressed()) else ans()
+        e2.encode_reverse(out, model, *params)
+        if not np.array_equal(e2.get_compressed(), np.array(w, dtype=np.uint32)):
+            return f"accepted, but decoding arbitrary words and re-encoding the symbols {list(out)} does not restore the words"
+    return None
+
+
+def run_families(start, stop):
+    failures, n = [], 0
+    counters = {"family_cases": 0, "family_clean_failures": 0, "family_models_accepted": 0}
+    cases = family_cases()
+    devnull = open(os.devnull, "w")
+    for i in range(start, min(stop, len(cases))):
+        fam, a, b, mode = cases[i]
+        sys.stderr.write(f"@{i}\n"); sys.stderr.flush()
+        n += 1
+        counters["family_cases"] += 1
+        try:
+            saved = os.dup(2); os.dup2(devnull.fileno(), 2)  # silence the panic backtraces of clean failures
+            try:
+                why = family_case(fam, a, b, mode)
+            finally:
+                os.dup2(saved, 2); os.close(saved)
+        except BaseException as e:
+            counters["family_clean_failures"] += 1
+            continue
+        counters["family_models_accepted"] += 1
+        if why is not None:
+            failures.append({"what": f"Python front end | {fam} model ({'constructor arguments' if mode == 'scalar' else 'per-symbol parameter arrays'}) | parameters are accepted but the model is not valid",
+                             "detail": f"{fam}({a!r}, {b!r}) [{mode}]: {why}"})
+    return n, failures, counters
+
+
 def main():
     cmd = sys.argv[1]
     if cmd == "vectors":
         n, f, c = run_vectors(sys.argv[2])
     elif cmd == "docexamples":
         n, f, c = run_docexamples(sys.argv[2])
+    elif cmd == "families":
+        n, f, c = run_families(int(sys.argv[2]), int(sys.argv[3]))
+        c["family_total"] = len(family_cases())
     elif cmd == "layouts":
         n, f, c = run_layouts()
     elif cmd == "constructors":
